@@ -76,6 +76,7 @@ type Exec struct {
 	slInv    map[string]bool
 	boxOf    map[string]boxedVal
 	curCall  *ssa.CallCommon
+	defers   []deferRec // deferred extern calls of the entry block (applied at RunDefers, last first)
 	rpOn     bool // record access-path observations for method replay (replay2.go)
 	rpN      int
 	cbPred   string // walkpost predicate of the callback passed to the extern being applied
@@ -667,12 +668,16 @@ func (x *Exec) execInstr(in ssa.Instruction, st *State, pc Term) {
 		x.execCall(i, &i.Call, st, pc)
 	case *ssa.Go:
 		x.dropped["go statement at "+x.posStr(i.Pos())+": spawned goroutine not executed in this thread"] = true
+		x.execGo(i, st, pc)
 		if x.eng.ghostDecl("concurrent") != nil {
 			st.ghosts["concurrent"] = tTrue // from here on other goroutines of this device may run
 		}
 	case *ssa.Defer:
-		x.dropped["defer at "+x.posStr(i.Pos())+": deferred call treated as effect-free on modelled state"] = true
+		if !x.recordDefer(i, st, pc) {
+			x.dropped["defer at "+x.posStr(i.Pos())+": deferred call treated as effect-free on modelled state"] = true
+		}
 	case *ssa.RunDefers:
+		x.runDefers(st, pc)
 	case *ssa.Send:
 		x.execSend(i, st, pc)
 	case *ssa.Range:
